@@ -143,9 +143,10 @@ impl Runner for SubprocessRunner {
                 let kind = err.kind();
                 let (stdout, stderr) = err.capture;
 
-                // a test that timed out is aborted: the shell must not go on
-                // executing it (and persisting state) after Scrut gave up on it
-                if kind == ErrorKind::TimedOut {
+                // a test that timed out, or whose shell hung up on the expression that is
+                // fed to it, is aborted: the shell must not go on executing it (and
+                // persisting state) after Scrut gave up on it
+                if kind == ErrorKind::TimedOut || !cfg!(windows) {
                     let _ = process.kill();
                     let _ = process.wait();
                 }
